@@ -8,3 +8,4 @@ from contracts import context  # noqa
 from contracts import mailbox  # noqa
 from contracts import storage  # noqa
 from . import processor  # noqa
+from . import superrun  # noqa
